@@ -27,6 +27,7 @@ import (
 	"strings"
 	"sync"
 	"sync/atomic"
+	"syscall"
 	"time"
 
 	"go.minekube.com/gate/pkg/edition/java/netmc"
@@ -509,6 +510,9 @@ func runChildren(scs []scenario) []childOut {
 				got++
 			case <-time.After(30 * time.Second):
 				hung = true
+				// ask the runtime for a goroutine dump (where is it stuck?), then kill
+				cmd.Process.Signal(syscall.SIGQUIT)
+				time.Sleep(3 * time.Second)
 				cmd.Process.Kill()
 				break loop
 			}
@@ -557,7 +561,22 @@ func crashKind(co childOut) string {
 	if co.res != nil && !co.res.Hang {
 		return "CrNone"
 	}
-	if co.hang || (co.res != nil && co.res.Hang) {
+	if co.hang {
+		// the child was sent SIGQUIT: a goroutine that is RUNNING (or runnable) inside the packet queue
+		// means the corrupted deque never drains (ReleaseQueue spins under c.mu)
+		for _, g := range strings.Split(co.stderr, "\n\ngoroutine ")[1:] {
+			head := g
+			if i := strings.Index(g, "\n"); i >= 0 {
+				head = g[:i]
+			}
+			if (strings.Contains(head, "[running") || strings.Contains(head, "[runnable")) &&
+				strings.Contains(g, "queue.(*PlayPacketQueue)") {
+				return "CrHangQueue"
+			}
+		}
+		return "CrHang"
+	}
+	if co.res != nil && co.res.Hang {
 		return "CrHang"
 	}
 	// the child died: attribute by the panicking goroutine's stack
@@ -669,6 +688,9 @@ func main() {
 			"frames_on_wire": frames, "packets_written": total, "race_reports_queue": rq, "race_reports_other": ro}
 		if crash != "CrNone" || ro > 0 {
 			desc["child_stderr"] = trunc(co.stderr, 6000)
+			if i := strings.Index(co.stderr, "SIGQUIT"); i >= 0 {
+				desc["child_goroutine_dump"] = trunc(co.stderr[i:], 8000)
+			}
 		}
 		out.Add(term, desc, true, "stress", fmt.Sprintf("writers=%d", len(sc.Writers)), "crash="+crash, fmt.Sprintf("proto=%d", sc.Protocol))
 	}
